@@ -2345,7 +2345,8 @@ template< size_t L>
    // test if string is already full
    if (mLength == L)
       return *this;
-   return append( std::string( count, ch));
+   // do not build more than still fits, count can be max(64bit)
+   return append( std::string( std::min( count, L - mLength), ch));
 } // FixedString< L>::append
 
 
